@@ -1350,4 +1350,21 @@ Tokens""", """                    else None,
 
 
 Tokens""")]),
+    # ---- CMP-PARSED (C10, C09)
+    dict(id="cmpparsed-built-node-compared-directly", kind=B, props=["C10", "C09"], expect="CMP-PARSED", edits=[("conformance.py",
+         """    if not cmp_ast(
+        original_node,
+        ast_parse(to_code(replacement_node), skip_docstring_remit=True).body[0],
+    ):""", """    if not cmp_ast(original_node, replacement_node):""")]),
+    dict(id="cmpparsed-neutral-read-back-into-local", kind=N, props=["C10", "C09", "C11"], expect="silent", edits=[("conformance.py",
+         """    if not cmp_ast(
+        original_node,
+        ast_parse(to_code(replacement_node), skip_docstring_remit=True).body[0],
+    ):""", """    as_written = ast_parse(to_code(replacement_node), skip_docstring_remit=True)
+    if not cmp_ast(original_node, as_written.body[0]):""")]),
+    # ---- SLICE-WRAP (scoped pitfall)
+    dict(id="slicewrap-announcement-at-position-zero", kind=B, props=["C17", "C08"], expect="SLICE-WRAP", edits=[("defaults_utils.py",
+         """        fst = line[: max(_start_idx - 1, 0)]""", """        fst = line[: _start_idx - 1]""")]),
+    dict(id="slicewrap-neutral-guarded", kind=N, props=["C17", "C08"], expect="silent", edits=[("defaults_utils.py",
+         """        fst = line[: max(_start_idx - 1, 0)]""", """        fst = line[: _start_idx - 1] if _start_idx > 0 else \"\"""")]),
 ]
